@@ -79,20 +79,6 @@ End PagingProofs.
 Lemma found_max_nil acc : found_max [] acc = acc.
 Proof. reflexivity. Qed.
 
-(** C16 (idempotence of a completed repair): a wallet in which every one of the seed's chain
-    outputs is already recorded and not marked Spent — and, when pending transactions are to
-    be dropped, none is Locked and no record is Unconfirmed — is left exactly as it is. *)
-Theorem scan_noop w chain del :
-  accidental (w_outs w) chain = [] -> missing (w_outs w) chain = [] ->
-  (del = true -> locked_on_chain (w_outs w) chain = []
-                 /\ filter (fun o => status_eqb (r_status o) Unconfirmed) (w_outs w) = []) ->
-  scan_repair w chain del = w.
-Proof.
-  intros Ha Hm Hd. unfold scan_repair. rewrite Ha, Hm. cbn [fold_left found_max restore_indices].
-  destruct del; [|destruct w; reflexivity].
-  destruct (Hd eq_refl) as [Hl Hu]. rewrite Hl, Hu. cbn [fold_left]. destruct w; reflexivity.
-Qed.
-
 (* ------------------------------------------------------------------ restoring a fresh wallet *)
 
 Definition restored_rec (d : cout) (id : N) : orec :=
@@ -261,17 +247,82 @@ Proof.
   - now apply IH.
 Qed.
 
-Theorem scan_fresh_child_beyond w chain del d :
-  w_outs w = [] -> NoDup (map ckey chain) -> In d chain ->
-  snd (co_key d) < lookup (w_child (scan_repair w chain del)) (fst (co_key d)).
+(** every entry of [found_max] is the child index of one of the listed outputs (or was in the
+    accumulator) *)
+Lemma in_update l k v a m : In (a, m) (update l k v) -> (a = k /\ m = v) \/ In (a, m) l.
 Proof.
-  intros Hempty Hn Hin. unfold scan_repair. rewrite Hempty.
-  assert (Hmis : missing [] chain = chain).
-  { unfold missing. clear. induction chain as [|x r IH]; cbn; [reflexivity|]. now f_equal. }
-  rewrite Hmis.
+  induction l as [|[k' v'] r IH]; cbn [update].
+  - intros [H|[]]. inversion H; auto.
+  - destruct (k' =? k) eqn:E.
+    + intros [H|H]; [inversion H; auto|right; now right].
+    + intros [H|H]; [right; now left|]. destruct (IH H) as [?|?]; [now left|right; now right].
+Qed.
+
+Lemma lookup_bound l a (C : N -> N) :
+  (forall k m, In (k, m) l -> m < C k) -> has_key l a -> lookup l a < C a.
+Proof. intros H Hk. apply H. now apply lookup_in. Qed.
+
+Lemma found_max_bound (C : N -> N) : forall ms acc,
+  (forall a m, In (a, m) acc -> m < C a) ->
+  (forall d, In d ms -> snd (co_key d) < C (fst (co_key d))) ->
+  forall a m, In (a, m) (found_max ms acc) -> m < C a.
+Proof.
+  induction ms as [|d r IH]; intros acc Ha Hm a m Hin; cbn [found_max] in Hin; [now apply Ha|].
+  eapply IH; [| |exact Hin].
+  - intros a0 m0 H0. apply in_update in H0 as [[-> ->]|H0]; [|now apply Ha].
+    assert (Hd : snd (co_key d) < C (fst (co_key d))) by (apply Hm; now left).
+    assert (Hl : lookup acc (fst (co_key d)) = 0 \/ lookup acc (fst (co_key d)) < C (fst (co_key d))).
+    { clear -Ha. induction acc as [|[k x] r' IH']; cbn [lookup]; [now left|].
+      destruct (k =? fst (co_key d)) eqn:E.
+      - right. assert (k = fst (co_key d)) by lia. subst. apply Ha. now left.
+      - apply IH'. intros a m H. apply Ha. now right. }
+    lia.
+  - intros d0 H0. apply Hm. now right.
+Qed.
+
+Lemma restore_indices_noop : forall found w,
+  (forall a m, In (a, m) found -> m < lookup (w_child w) a) -> restore_indices w found = w.
+Proof.
+  induction found as [|[k m] r IH]; intros w H; [reflexivity|].
+  cbn [restore_indices fold_left fst snd].
+  assert (Hk : m < lookup (w_child w) k) by (apply H; now left).
+  destruct (lookup (w_child w) k <=? m) eqn:E; [lia|].
+  apply IH. intros a m0 H0. apply H. now right.
+Qed.
+
+(** C16 (idempotence of a completed repair): a wallet in which every one of the seed's chain
+    outputs is already recorded and not marked Spent, whose next-child counters lie beyond
+    every path on chain — and, when pending transactions are to be dropped, none is Locked
+    and no record is Unconfirmed — is left exactly as it is. *)
+Theorem scan_noop w chain del :
+  accidental (w_outs w) chain = [] -> missing (w_outs w) chain = [] ->
+  (forall d, In d chain -> snd (co_key d) < lookup (w_child w) (fst (co_key d))) ->
+  (del = true -> locked_on_chain (w_outs w) chain = []
+                 /\ filter (fun o => status_eqb (r_status o) Unconfirmed) (w_outs w) = []) ->
+  scan_repair w chain del = w.
+Proof.
+  intros Ha Hm Hidx Hd. unfold scan_repair. rewrite Ha, Hm. cbn [fold_left].
+  assert (Hb : forall a m, In (a, m) (found_max chain []) -> m < lookup (w_child w) a).
+  { apply (found_max_bound (fun a => lookup (w_child w) a)); [intros a m []|exact Hidx]. }
+  destruct del.
+  - destruct (Hd eq_refl) as [Hl Hu]. rewrite Hl, Hu. cbn [fold_left]. now apply restore_indices_noop.
+  - now apply restore_indices_noop.
+Qed.
+
+(** after a scan from ANY wallet state — an interrupted restore, a damaged index — the next
+    path of every account lies beyond every path of the seed found on chain *)
+Theorem scan_child_beyond_any w chain del d :
+  In d chain -> snd (co_key d) < lookup (w_child (scan_repair w chain del)) (fst (co_key d)).
+Proof.
+  intros Hin. unfold scan_repair.
   eapply N.le_lt_trans; [apply (found_max_covers chain [] d Hin)|].
   apply restore_indices_above. apply lookup_in. now apply found_max_has_key.
 Qed.
+
+Theorem scan_fresh_child_beyond w chain del d :
+  w_outs w = [] -> NoDup (map ckey chain) -> In d chain ->
+  snd (co_key d) < lookup (w_child (scan_repair w chain del)) (fst (co_key d)).
+Proof. intros _ _ Hin. now apply scan_child_beyond_any. Qed.
 
 Lemma fold_restore_nodup : forall l w, NoDup (map okey (w_outs w)) ->
   NoDup (map okey (w_outs (fold_left restore_missing l w))).
@@ -338,5 +389,6 @@ Proof.
   apply scan_noop.
   - now apply accidental_nil.
   - apply missing_nil. intros d Hd. destruct (Hm2 d Hd) as (o & -> & _). discriminate.
+  - intros d Hd. unfold w'. now apply scan_child_beyond_any.
   - intros _. split; [now apply locked_nil|]. apply no_unconfirmed. exact Hunspent.
 Qed.
